@@ -30,6 +30,7 @@ type TNode struct {
 	Delim    string     `json:"delim,omitempty"`
 	Enc      [][]string `json:"enc,omitempty"`
 	Mutex    bool       `json:"mutex,omitempty"`
+	VPol     int        `json:"vpol,omitempty"` // validity policy: 1 pure accepting closure, 2 pure rejecting closure
 	ReadOnly bool       `json:"ro,omitempty"`
 	Alias    int        `json:"alias,omitempty"` // 0 native, 1 AStack, 2 *AStack, 3 SStack, 4 *SStack / same for conditions
 	Kids     []*TNode   `json:"kids,omitempty"`
@@ -219,11 +220,19 @@ func (n *TNode) BuildStack() stackage.Stack {
 	if n.Mutex {
 		s.SetMutex()
 	}
+	switch n.VPol {
+	case 1:
+		s.SetValidityPolicy(func(...any) error { return nil })
+	case 2:
+		s.SetValidityPolicy(func(...any) error { return errPolicyRejects })
+	}
 	if n.ReadOnly {
 		s.SetReadOnly(true)
 	}
 	return s
 }
+
+var errPolicyRejects = fmt.Errorf("validity policy rejects this stack")
 
 // BuildCond instantiates a condition node as a native Condition.
 func (n *TNode) BuildCond() stackage.Condition {
